@@ -118,6 +118,7 @@ type actorDef struct {
 	Role    string // as written (maybe plural)
 	With    []withItem
 	WithTxt string
+	Opaque  bool // the with clause holds something the mini-shell does not read: $(...), $((...)), an array, ( ... )
 }
 
 type execObs struct {
@@ -136,6 +137,7 @@ type execObs struct {
 	Fd1, Fd2              string
 	Fd1Append, Fd2Append  bool
 	LogKept               bool
+	Opaque                bool // the with clause of the actor (or of the actor it is invoked through) is outside the mini-shell
 	StreamsOK             bool // a spotlight run by the real play: a line of its stdout and one of its stderr reached the signal filters
 	Note                  string
 }
@@ -228,9 +230,14 @@ func genValue(rng *rand.Rand, earlier []string, multi bool) (string, bool) {
 	return sb.String(), true
 }
 
-func genWith(rng *rand.Rand, multi bool) ([]withItem, string) {
+func genWith(rng *rand.Rand, multi bool) ([]withItem, string, bool) {
 	if rng.Intn(10) < 4 {
-		return nil, ""
+		return nil, "", false
+	}
+	if rng.Intn(40) == 0 {
+		// the form the manual's prose mentions: the parser hands it to the
+		// shell as is, where it is a subshell - the variables are NOT set
+		return nil, "(a=1 b=2)", true
 	}
 	n := 1 + rng.Intn(3)
 	var items []withItem
@@ -258,7 +265,33 @@ func genWith(rng *rand.Rand, multi bool) ([]withItem, string) {
 		items = append(items, it)
 		names = append(names, name)
 	}
-	return items, sb.String()
+	opaque := false
+	if rng.Intn(8) == 0 {
+		// constructs that end in a parenthesis; outside the mini-shell, the
+		// command must still run and see the variable
+		opaque = true
+		sb.WriteString(" ")
+		switch rng.Intn(3) {
+		case 0:
+			sb.WriteString("started=$(date +%s)")
+			items = append(items, withItem{Name: "started", Src: "$(date +%s)", Literal: false})
+		case 1:
+			ref := "i"
+			if !multi {
+				ref = "1"
+			}
+			for _, n := range names {
+				if n == "i" {
+					ref = "1" // the clause gives i a value of its own, maybe not a number
+				}
+			}
+			sb.WriteString("sqlport=$((26257+" + ref + "))")
+			items = append(items, withItem{Name: "sqlport", Src: "$((26257+" + ref + "))", Literal: false})
+		default:
+			sb.WriteString("arr=(1 2 3)") // arrays are not exported: nothing to see, but the script must not break
+		}
+	}
+	return items, sb.String(), opaque
 }
 
 func otherCmd(rng *rand.Rand) (src, parsed string) {
@@ -388,7 +421,7 @@ func genCast(rng *rand.Rand, self string) *castCase {
 				d.Role = r.Name + "s"
 			}
 		}
-		d.With, d.WithTxt = genWith(rng, d.Mul > 0)
+		d.With, d.WithTxt, d.Opaque = genWith(rng, d.Mul > 0)
 		c.Cast = append(c.Cast, d)
 	}
 	return c
@@ -618,7 +651,14 @@ type pending struct {
 func (c *castCase) prepareOne(rng *rand.Rand, caseDir string, n int, inner liveActor, script string, spot bool,
 	viaActor, viaScript string, paths map[string]map[string]string, workdirs map[string]string) *pending {
 	e := execObs{Actor: inner.Name, Script: script, ViaActor: viaActor, ViaScript: viaScript,
-		Index: inner.Index, With: inner.Def.With, Spotlight: spot, StreamsOK: true}
+		Index: inner.Index, With: inner.Def.With, Spotlight: spot, StreamsOK: true, Opaque: inner.Def.Opaque}
+	if viaActor != "" {
+		for _, a := range c.actors() {
+			if a.Name == viaActor && a.Def.Opaque {
+				e.Opaque = true
+			}
+		}
+	}
 	p := &pending{}
 	p.foreign = filepath.Join(caseDir, "foreign"+strconv.Itoa(n))
 	e.CallerCwd = p.foreign
@@ -781,7 +821,7 @@ func genPlay(rng *rand.Rand, self string) (*castCase, string) {
 		if k == 1 {
 			d.Mul = 2 + rng.Intn(2)
 		}
-		d.With, d.WithTxt = genWith(rng, d.Mul > 0)
+		d.With, d.WithTxt, d.Opaque = genWith(rng, d.Mul > 0)
 		c.Cast = append(c.Cast, d)
 	}
 	var sb strings.Builder
@@ -882,7 +922,7 @@ func runPlay(rng *rand.Rand, bin, root string, c *castCase, cfg string) {
 		wd := filepath.Join(c.RunDir, "artifacts", a.Name)
 		for _, x := range all {
 			e := execObs{Actor: a.Name, Script: x.Name, Index: a.Index, With: a.Def.With, Spotlight: x.Name == "_spotlight",
-				CallerCwd: wd, CallerEnv: env, CallerOut: "the play's pipe", StreamsOK: true, Note: note}
+				CallerCwd: wd, CallerEnv: env, CallerOut: "the play's pipe", StreamsOK: true, Note: note, Opaque: a.Def.Opaque}
 			var rec *probeOut
 			for k := range recs {
 				if recs[k].Tag == x.Name && recs[k].Cwd == wd {
@@ -992,11 +1032,11 @@ func (c *castCase) coq() string {
 		for _, x := range e.With {
 			w = append(w, "("+S(x.Name)+", "+S(x.Val)+", "+vh.Bool(x.Literal)+")")
 		}
-		execs = append(execs, fmt.Sprintf("(Build_exec_obs %s %s %s %s %s %s %s %s %s %s %s %s %s %s %s %s %s %s)",
+		execs = append(execs, fmt.Sprintf("(Build_exec_obs %s %s %s %s %s %s %s %s %s %s %s %s %s %s %s %s %s %s %s)",
 			S(e.Actor), S(e.Script), via, idx, vh.List(w), vh.Bool(e.Spotlight),
 			S(e.CallerCwd), coqPairs(e.CallerEnv), S(e.CallerOut),
 			vh.Bool(e.Ran), S(e.Cwd), coqPairs(e.Env),
-			S(e.Fd1), vh.Bool(e.Fd1Append), S(e.Fd2), vh.Bool(e.Fd2Append), vh.Bool(e.LogKept), vh.Bool(e.StreamsOK)))
+			S(e.Fd1), vh.Bool(e.Fd1Append), S(e.Fd2), vh.Bool(e.Fd2Append), vh.Bool(e.LogKept), vh.Bool(e.StreamsOK), vh.Bool(e.Opaque)))
 	}
 	return fmt.Sprintf("(Build_cast_case %s %s\n   %s\n   %s\n   %s\n   %s\n   %s)",
 		S(c.Shell), S(c.RunDir), vh.List(roles), vh.List(cast), vh.Bool(c.Rejected), vh.List(actors), vh.List(execs))
